@@ -25,12 +25,14 @@ def ref_amp_fraction(volt_amp):
     v = [float(x) for x in volt_amp]
     n = len(v)
     out = []
+    import bisect
+    fin = sorted(y for y in v if not math.isnan(y))
     for x in v:
         if math.isnan(x):
             out.append(NAN)
             continue
-        less = sum(1 for y in v if y < x)
-        eq = sum(1 for y in v if y == x)
+        less = bisect.bisect_left(fin, x)            # number of values strictly below x
+        eq = bisect.bisect_right(fin, x) - less      # number of values equal to x
         out.append((less + (eq + 1) / 2) / n)
     return out
 
